@@ -49,6 +49,14 @@ theorem decrypt_accepts_hash (d x1 y1 : Nat) (c3 c2 m : Bytes) (h : decryptParse
   · have hc' : onCurve (x1 % p) (y1 % p) = false := by simpa using hc
     simp [hc'] at h
 
+/-- the point-format octet is read (as repaired): a ciphertext that does not start with PC = 04 is an error -/
+theorem decrypt_rejects_format (d : Nat) (ct : Bytes) (ord : Order) (h : ct.head? ≠ some 0x04) :
+    decrypt d ct ord = none := by
+  unfold decrypt
+  split
+  · rfl
+  · simp [h]
+
 /-- T1 `altered_implies_collision`: two ciphertexts with the same C1 and C3 that both decrypt, to
     different plaintexts, exhibit an SM3 collision on inputs x₂‖m‖y₂, x₂‖m'‖y₂. -/
 theorem altered_implies_collision (d x1 y1 : Nat) (c3 c2 c2' m m' : Bytes)
